@@ -97,6 +97,7 @@ def iteration_effects(ev, env, depth=0, max_depth=6, seen=None):
         if key and key in ev.facts.bodies and key not in ev.opaque and depth < max_depth:
             cb = ev.facts.bodies[key]
             sub = ev.inline_env(cb, {i + 1: x for i, x in enumerate(args)}, depth + 1, env.path + ((body.key, bi),))
+            sub.parent = env
             for r in iteration_effects(ev, sub, depth + 1, max_depth, seen):
                 yield r
             continue
@@ -128,6 +129,7 @@ def iteration_effects(ev, env, depth=0, max_depth=6, seen=None):
                 else:
                     a[2] = param
                 sub = ev.inline_env(cb, a, depth + 1, env.path + ((body.key, bi),))
+                sub.parent = env
                 for r in iteration_effects(ev, sub, depth + 1, max_depth, seen):
                     yield r
 
